@@ -1,8 +1,9 @@
-\* word generator over the structure of the pinned code (the harness drives a real Endpoint along each word)
-SPECIFICATION SpecCode
+\* word generator over the unlock-first structure (the harness drives a real Endpoint along each word)
+SPECIFICATION SpecFixed
 INVARIANT TypeOK AtMostOneRun Emit
 CHECK_DEADLOCK FALSE
 CONSTANTS
-  UnlockFirst = FALSE
+  UnlockFirst = TRUE
   WithMap = FALSE
+  ClearOnHeld = FALSE
   KeepHist = TRUE
